@@ -29,6 +29,7 @@ RULE = ("(api) table with/without metadata x history x axis x add_metadata "
         "row and a comment after the header; distinct = canonical hash")
 BUDGET = {"quick": {"shards": 16, "examples": 250},
           "thorough": {"shards": 16, "examples": 5000}}
+FUZZ_SECONDS = 120   # thorough tier: atheris campaign on the same property
 ASSUMPTIONS = ["mapping-file IDs are non-empty and unique; column names "
                "unique"]
 TMP = c01.TMP
